@@ -127,3 +127,7 @@ Print Assumptions C11_norm_dense_range.
 Theorem C11_min_max_are_bounds : forall l x, In x l -> (qmin_list l <= x /\ x <= qmax_list l)%Q.
 Proof. intros l x H. exact (conj (qmin_list_le l x H) (qmax_list_ge l x H)). Qed.
 Print Assumptions C11_min_max_are_bounds.
+Theorem C11_norm_irr_range : forall obs, (gmin obs < gmax obs)%Q ->
+  Forall (Forall (fun v => 0 <= v /\ v <= 1)%Q) (norm_irr obs).
+Proof. exact norm_irr_range. Qed.
+Print Assumptions C11_norm_irr_range.
